@@ -47,11 +47,15 @@ package clickhouse_transpiler
 //@ func (*AttrConditionPlanner).aggregator [C14]
 //@   flag checks=-index,-assert
 //@   modifies a.where, elems(a.where)
+// A disjunction without operands renders as "()", which is not SQL: the pre-filter
+// on attribute rows is only added when some term asks for an attribute (a selector
+// such as {duration > 1s} has none).
 //@ func (*AttrConditionPlanner).Process [C11,C14]
 //@   requires starts-unaliased: !a.isAliased
 //@   requires conditions-built-or-not: len(a.sqlConds) == 0 || len(a.sqlConds) == len(a.Terms)
 //@   ensures ends-unaliased: result1 == nil ==> !a.isAliased
 //@   ensures conditions-built-once: result1 == nil ==> len(a.sqlConds) == len(a.Terms)
+//@   at sql_select.Or no-empty-disjunction: len(arg0) > 0
 //@   loop 1:
 //@     modifies elems(rawCachedTraceIds)
 
